@@ -109,6 +109,18 @@ def statKind (t : Tree) (s : List Nat) : Option Kind :=
 
 def isDir (t : Tree) (s : List Nat) : Bool := statKind t s = some .dir
 
+/-- `realpath(path)` (what `zix_canonical_path` returns): the physical path of what the path names,
+`none` when it names nothing (or, with a trailing separator, something that is not a directory). -/
+def canonical (t : Tree) (s : List Nat) : Option (List (List Nat)) :=
+  if s = [] then none
+  else
+    match walk t walkFuel (t.start s) (comps s) with
+    | .ok p =>
+      match t.lookup p with
+      | some k => if isSep (s.getLastD 0) ∧ k ≠ .dir then none else some p
+      | none => none
+    | .error _ => none
+
 /-- `mkdir(path)`: the new tree, or an errno.  The parent is resolved following links; the last
 component is not followed (an existing entry of any kind, dangling link included, is EEXIST).
 The parent is resolved with one step less than `stat` has, so that a directory that could be created
